@@ -1063,7 +1063,7 @@ func (rn *runner) observe(code int) string {
 			cidx := rn.ctxs.Id(strings.ToUpper(fd.RequestContextID))
 			feedT = "(Some " + lib.Pair(lib.Z(int64(agg)), lib.Z(int64(path)), lib.ZU(fd.LatestHistory), lib.Z(int64(cidx)), lib.Z(int64(creator))) + ")"
 			if x, ok := rn.ctxState(strings.ToUpper(fd.RequestContextID)); ok {
-				ctxT = "(Some " + lib.Pair(lib.Z(int64(x.State)), lib.ZU(x.BatchCounter), lib.ZU(uint64(x.ResponseThreshold)), lib.ZU(uint64(x.BatchResponseThreshold))) + ")"
+				ctxT = "(Some " + lib.Pair(lib.Z(int64(x.State)), lib.ZU(x.BatchCounter), lib.ZU(uint64(x.ResponseThreshold)), lib.ZU(uint64(x.BatchResponseThreshold)), lib.B(x.BatchState == servicetypes.BATCHRUNNING)) + ")"
 				if x.State != resp.Feed.State {
 					rn.c.Notes = append(rn.c.Notes, "feed query state differs from the context state")
 				}
